@@ -121,8 +121,10 @@ def ref_rpsi(d):
 def adapt_of(elems):
     """the `.adapt` rendering (PROTOCOL.md §5 ADAPT) of an iterator whose next()-driven list is elems"""
     j = lambda xs: ",".join(xs) if xs else "-"
-    return ";".join([str(len(elems)), elems[-1] if elems else "none", j(elems[1:]),
-                     elems[2] if len(elems) > 2 else "none", j(elems[0::2]), elems[2] if len(elems) > 2 else "none"])
+    n = len(elems)
+    return ";".join([str(n), elems[-1] if elems else "none", j(elems[1:]),
+                     elems[2] if n > 2 else "none", j(elems[0::2]), elems[2] if n > 2 else "none",
+                     str(max(n - 1, 0)), str(max(n - 1, 0)), j(elems), str(n)])
 
 
 def elems_of(V, key):
@@ -191,6 +193,8 @@ def oracle_C01(ctx, i):
     out = []
     if I.get("shift_same", "true").endswith("panic"):
         out += shift_failures(I)
+    if "panic" in I.get("again_same", "") or "panic" in I.get("rt.again_same", ""):
+        out += again_failures(I)
     op = meta.get("op")
     for k, v in I.items():
         if op == "build" and not k.startswith("rt."):
@@ -234,6 +238,7 @@ def expect(I, key, want, out):
 def oracle_C02(ctx, i):
     I, meta = ctx.I[i], ctx.metas[i]
     if meta.get("op") != "build": return []
+    again = again_failures(I, ("rt.",))
     cfg = leaf(meta["cfg"])
     if cfg["k"] not in ("sr", "rr") or not I.get("size", "").startswith("ok:"): return []
     out = []
@@ -247,7 +252,7 @@ def oracle_C02(ctx, i):
     for j, rb in enumerate(cfg["rbs"]):
         expect(I, f"rt.rb{j}", rb_str(rb), out)
     out += adapt_failures(pfx(I, "rt."), "rt.")
-    return out
+    return out + again
 
 
 def item_fields(v):
@@ -264,6 +269,7 @@ def item_fields(v):
 def oracle_C03(ctx, i):
     I, meta = ctx.I[i], ctx.metas[i]
     if meta.get("op") != "build": return []
+    again = again_failures(I, ("rt.",))
     cfg = leaf(meta["cfg"])
     if cfg["k"] != "sdes" or not I.get("size", "").startswith("ok:"): return []
     if any(it["type"] == 0 for ch in cfg["chunks"] for it in ch["items"]): return []
@@ -288,12 +294,13 @@ def oracle_C03(ctx, i):
                 out.append(f"rt.c{ci}.i{ji}.str={sv[:60]} expected the configured text {hexb(it['value'])[:60]}")
     V = pfx(I, "rt.")
     out += adapt_failures(V, "rt.") + string_failures(V, "rt.")
-    return out
+    return out + again
 
 
 def oracle_C04(ctx, i):
     I, meta = ctx.I[i], ctx.metas[i]
     if meta.get("op") != "build": return []
+    again = again_failures(I, ("rt.",))
     cfg = leaf(meta["cfg"])
     if cfg["k"] not in ("bye", "app") or not I.get("size", "").startswith("ok:"): return []
     out = []
@@ -317,7 +324,7 @@ def oracle_C04(ctx, i):
         out.append(f"rt.reason_str={I.get('rt.reason_str')[:60]} expected the configured text {hexb(cfg['reason'])[:60]}")
     V = pfx(I, "rt.")
     out += adapt_failures(V, "rt.") + string_failures(V, "rt.")
-    return out
+    return out + again
 
 
 def fci_expected(f):
@@ -346,6 +353,7 @@ def canon_fir(v):
 def oracle_C05(ctx, i):
     I, meta = ctx.I[i], ctx.metas[i]
     if meta.get("op") != "build": return []
+    again = again_failures(I, ("rt.",))
     cfg = leaf(meta["cfg"])
     if cfg["k"] not in ("tfb", "pfb") or not I.get("size", "").startswith("ok:"): return []
     f = cfg["fci"]
@@ -371,7 +379,7 @@ def oracle_C05(ctx, i):
             if g != want:
                 out.append(f"rt.fci.{f['k']}={got[:120]} expected {want[:120]}")
     out += adapt_failures(pfx(I, "rt."), "rt.")
-    return out
+    return out + again
 
 
 # ------------------------------------------------------------------------------------------------
@@ -666,6 +674,17 @@ def c09_view(V, kind, b, out, tag, base=0):
         if "data" in V: chk_slice(V["data"], b, base, b, out, tag + "data")
 
 
+def again_failures(I, prefixes=("", "rt.")):
+    out = []
+    for p in prefixes:
+        v = I.get(p + "again_same")
+        if v is not None and v != "true":
+            parts = v.split(":", 2)
+            how = "a second call on the same parsed value" if len(parts) > 1 and parts[1] == "B" else "calling the accessors in another order on a fresh parse"
+            out.append(f"{p}accessor results depend on call history: {how} changes `{parts[2] if len(parts) > 2 else '?'}`")
+    return out
+
+
 def shift_failures(I):
     v = I.get("shift_same")
     if v is not None and v != "true":
@@ -675,7 +694,7 @@ def shift_failures(I):
 
 def oracle_C09(ctx, i):
     I, meta = ctx.I[i], ctx.metas[i]
-    out = shift_failures(I)
+    out = shift_failures(I) + again_failures(I)
     for p, kind, b in view_prefixes(meta):
         r = I.get(p + "res")
         if r == "ok":
@@ -761,7 +780,7 @@ def sdes_tokens_of_view(V):
 
 def oracle_C10(ctx, i):
     I, meta = ctx.I[i], ctx.metas[i]
-    out = []
+    out = again_failures(I)
     for p, kind, b in view_prefixes(meta):
         if kind != "sdes": continue
         r = I.get(p + "res", "")
@@ -804,7 +823,7 @@ def oracle_C11(ctx, i):
     b = meta["bytes"]
     ts = ref_tiling(b)
     r = I.get("res", "")
-    out = []
+    out = again_failures(I)
     if (r == "ok") != (ts is not None):
         out.append(f"Compound::parse says {r} but the length chain {'tiles' if ts else 'does not tile'} the {len(b)}-byte string")
         return out
@@ -1011,7 +1030,7 @@ def fci_check(kind, v, d, out, tag, base=0):
 
 def oracle_C15(ctx, i):
     I, meta = ctx.I[i], ctx.metas[i]
-    out = []
+    out = again_failures(I)
     for p, kind, b in view_prefixes(meta):
         out += adapt_failures(pfx(I, p), p, only=lambda kk: kk.startswith(("entries", "fci.")))
         k = kind_name(kind)
